@@ -189,7 +189,7 @@ def generate(prop, rng, run, tier):
            "ignore_duplicate": rng.random() < 0.5,
            "encoding": gen.wchoice(rng, [(None, 6), ("utf-8", 1), ("cp932", 1), ("cp1252", 1)]),
            "spelling": gen.wchoice(rng, [(None, 5), ("trailing", 1), ("dslash", 1), ("dot", 1),
-                                         ("rel", 1)]),
+                                         ("rel", 1), ("cwd", 0.7)]),
            "assets_self_load": rng.random() < 0.3,
            "open_faults": rng.random() < 0.3}
     sc = {"workload": "discover", "property": prop, "config": cfg,
@@ -376,7 +376,7 @@ def check_c19(sc, res):
     kw_load = _load_kwargs(cfg)
     ign = bool(cfg.get("ignore_duplicate"))
     spelling = cfg.get("spelling")
-    with Facade(facade, disk, relative=(spelling == "rel")) as fa:
+    with Facade(facade, disk, relative=(spelling in ("rel", "cwd"))) as fa:
         def npath(p):
             if not isinstance(p, str):
                 raise LibraryMisbehaved("path-is-not-a-string", got=repr(p))
@@ -749,7 +749,7 @@ def check_c20(sc, res):
     disk = make_disk(sc["world"], {"listing": cfg.get("listing", "sorted"),
                                    "listing_seed": cfg.get("listing_seed", 0)}, None, facade)
     spelling = cfg.get("spelling")
-    with Facade(facade, disk, relative=(spelling == "rel")) as fa:
+    with Facade(facade, disk, relative=(spelling in ("rel", "cwd"))) as fa:
         def npath(p):
             if not isinstance(p, str):
                 raise LibraryMisbehaved("path-is-not-a-string", got=repr(p))
@@ -768,6 +768,15 @@ def check_c20(sc, res):
             if isinstance(exp, LoadError):
                 continue
             arg = fa.p(_spell(d, spelling))
+            if spelling == "cwd" and fa.native_like:
+                # the song directory is the working directory and is named "." (or a
+                # spelling of it); answers come back relative to it
+                fa.chdir(d)
+                arg = ["." , "./", "x/..", "./."][cfg.get("listing_seed", 0) % 4]
+                if arg == "x/..":
+                    arg = "."  if not any(tree.isdir(d + "/" + e) for e in tree.entries(d)) else \
+                        [e for e in tree.entries(d) if tree.isdir(d + "/" + e)][0] + "/.."
+                res.stats["probe:directory-named-as-cwd"] += 1
             try:
                 if cfg.get("assets_self_load"):
                     assets = Assets(arg, strict=False, **fa.kw)
